@@ -3,7 +3,13 @@
  * (goto, CURSORVIS, CURSORSHAPE, CURSORBLINK).
  *
  * Operations (ids are small integers; the root window is 0):
- *   new L C                         terminal of L x C, root window
+ *   new L C                         terminal of L x C on the harness's recording driver, root window
+ *   newmock L C                     the same on the library's own mock terminal (tickit_mockterm_new): the cursor is what the
+ *                                   mock reports (tickit_term_getctl_int CURSORVIS / CURSORSHAPE / CURSORBLINK,
+ *                                   tickit_mockterm_get_position); L= lists the mock's log (g<l>.<c> for a goto, the entry
+ *                                   type number prefixed by `?` for anything else) -- control changes are not logged by it
+ *   termsize L C                    the terminal is resized (tickit_term_set_size / tickit_mockterm_resize): the root window
+ *                                   follows through its TICKIT_TERM_ON_RESIZE handler
  *   win ID PARENT T L N C FLAGS     tickit_window_new (FLAGS = TICKIT_WINDOW_* bit mask); ID must be the next free id
  *   close|show|hide|raise|raisefront|lower|lowerback|focus|unref|ref ID
  *   geom ID T L N C | repos ID T L | resize ID N C
@@ -31,6 +37,7 @@
 #include "hcommon.h"
 #include "tickit.h"
 #include "tickit-termdrv.h"
+#include "tickit-mockterm.h"
 
 #define MAXWIN 64
 
@@ -62,6 +69,7 @@ typedef struct {
 } Drv;
 
 static Drv *drv;
+static bool mock;             /* this history runs on the library's mock terminal */
 static char calls[4096]; static size_t ncalls;
 static void call_log(const char *fmt, ...) __attribute__((format(printf,1,2)));
 static void call_log(const char *fmt, ...)
@@ -166,10 +174,10 @@ static void teardown(void)
     }
   nwins = 0;
   if(tt) tickit_term_unref(tt);
-  tt = NULL; drv = NULL;
+  tt = NULL; drv = NULL; mock = false;
 }
 
-static void engine_begin(void) { tt = NULL; drv = NULL; nwins = 0; }
+static void engine_begin(void) { tt = NULL; drv = NULL; nwins = 0; mock = false; }
 static void engine_end(void) { teardown(); }
 
 static bool detached(int id)
@@ -188,8 +196,27 @@ static bool has_live_children(int id)
 
 static void dump(const char *status)
 {
+  if(mock) {
+    /* what the mock terminal logged during this operation, then what it reports about its cursor */
+    int n = tickit_mockterm_loglen(tt);
+    for(int i = 0; i < n; i++) {
+      TickitMockTermLogEntry *e = tickit_mockterm_peeklog(tt, i);
+      if(e->type == LOG_GOTO) call_log("g%d.%d", e->val1, e->val2);
+      else call_log("?%d", (int)e->type);
+    }
+    tickit_mockterm_clearlog(tt);
+  }
   obs("%s E=%s X=%s L=%s", status, nevents ? events : "~", nexposes ? exposes : "~", ncalls ? calls : "~");
-  obs(" C=%d,%d,%d,%d,%d", drv->vis, drv->line, drv->col, drv->shape, drv->blink);
+  if(mock) {
+    int vis = -9, shape = -9, blink = -9, line = -9, col = -9;
+    if(!tickit_term_getctl_int(tt, TICKIT_TERMCTL_CURSORVIS, &vis)) vis = -8;
+    if(!tickit_term_getctl_int(tt, TICKIT_TERMCTL_CURSORSHAPE, &shape)) shape = -8;
+    if(!tickit_term_getctl_int(tt, TICKIT_TERMCTL_CURSORBLINK, &blink)) blink = -8;
+    tickit_mockterm_get_position(tt, &line, &col);
+    obs(" C=%d,%d,%d,%d,%d", vis, line, col, shape, blink);
+  }
+  else
+    obs(" C=%d,%d,%d,%d,%d", drv->vis, drv->line, drv->col, drv->shape, drv->blink);
   for(int i = 0; i < nwins; i++) {
     TickitWindow *w = wins[i];
     if(!w) continue;
@@ -232,17 +259,24 @@ static void engine_op(int argc, char **argv)
   nexposes = 0; exposes[0] = 0;
   ncalls = 0; calls[0] = 0;
 
-  if(strcmp(op, "new") == 0) {
+  if(strcmp(op, "new") == 0 || strcmp(op, "newmock") == 0) {
     teardown();
     if(argc != 3) { obs("bad-op"); return; }
     int lines = atoi(argv[1]), cols = atoi(argv[2]);
     if(lines < 1 || cols < 1 || lines > 200 || cols > 200) { obs("bad-op"); return; }
-    drv = calloc(1, sizeof *drv);
-    drv->super.vtable = &d_vtable;
-    drv->vis = drv->line = drv->col = drv->shape = drv->blink = -1;
-    tt = tickit_term_build(&(struct TickitTermBuilder){ .driver = &drv->super });
-    if(!tt) { free(drv); drv = NULL; obs("bad-op"); return; }
-    tickit_term_set_size(tt, lines, cols);
+    if(strcmp(op, "newmock") == 0) {
+      tt = tickit_mockterm_new(lines, cols);
+      if(!tt) { obs("bad-op"); return; }
+      mock = true;
+    }
+    else {
+      drv = calloc(1, sizeof *drv);
+      drv->super.vtable = &d_vtable;
+      drv->vis = drv->line = drv->col = drv->shape = drv->blink = -1;
+      tt = tickit_term_build(&(struct TickitTermBuilder){ .driver = &drv->super });
+      if(!tt) { free(drv); drv = NULL; obs("bad-op"); return; }
+      tickit_term_set_size(tt, lines, cols);
+    }
     memset(wins, 0, sizeof wins); memset(closed, 0, sizeof closed);
     wins[0] = tickit_window_new_root(tt);
     parent_of[0] = -1; refs[0] = 1; nwins = 1;
@@ -257,6 +291,16 @@ static void engine_op(int argc, char **argv)
     if(!wins[0]) { obs("bad-op"); return; }
     tickit_window_flush(wins[0]);
    
+    dump("ok");
+    return;
+  }
+
+  if(strcmp(op, "termsize") == 0) {
+    if(argc != 3 || !wins[0]) { obs("bad-op"); return; }
+    int lines = atoi(argv[1]), cols = atoi(argv[2]);
+    if(lines < 1 || cols < 1 || lines > 200 || cols > 200) { obs("bad-op"); return; }
+    if(mock) tickit_mockterm_resize(tt, lines, cols);
+    else     tickit_term_set_size(tt, lines, cols);
     dump("ok");
     return;
   }
